@@ -62,3 +62,10 @@ pub mod validation;
 
 // Invariant PPT testing framework
 pub mod invariant_ppt;
+
+// Verification hooks: re-export of the private muxer module (feature `verif` only).
+#[cfg(feature = "verif")]
+#[doc(hidden)]
+pub mod verif_hooks {
+    pub use crate::muxer::mp4;
+}
